@@ -48,6 +48,8 @@ def run_props(repo, prop_ids, configs=None):
     """returns {prop: [violated instance dicts]} plus build errors"""
     out = {}
     facts_cache = {}
+    import rules_lm
+    rules_lm.REPO = repo
     for pid in prop_ids:
         spec = props.PROPS[pid]
         R = Report(pid)
